@@ -61,5 +61,10 @@ Closure(w, S) == LET T == S \cup ({ Resolve(w, c, 8) : c \in UNION { ChildrenOf(
 Reachable(w, root) == Closure(w, {root})
 Behind(w, root) == UNION { ChildrenOf(w, d) : d \in Reachable(w, root) }
 
+(* the same closure that does not pass through the directories of `avoid` (they are entered, if at all, by someone else) *)
+RECURSIVE ClosureAvoid(_, _, _)
+ClosureAvoid(w, S, avoid) == LET T == S \cup (({ Resolve(w, c, 8) : c \in UNION { ChildrenOf(w, d) : d \in S \ avoid } } \ {-1}))
+                             IN IF T = S THEN S ELSE ClosureAvoid(w, T, avoid)
+
 Disjoint(w, r1, r2) == r1 # r2 /\ ~Below(w, r1, r2) /\ ~Below(w, r2, r1) /\ r1 # 0 /\ r2 # 0
 =============================================================================
